@@ -112,17 +112,17 @@ func decEvent(tr *vh.Trace, sc int, name string, data []byte, first gopacket.Lay
 	guardAcc("Dump", &recs, func() { _ = p.Dump() })
 	guardAcc("LinkLayer", &recs, func() {
 		if l := p.LinkLayer(); !isNil(l) {
-			_ = l.LinkFlow()
+			useFlow(l.LinkFlow())
 		}
 	})
 	guardAcc("NetworkLayer", &recs, func() {
 		if l := p.NetworkLayer(); !isNil(l) {
-			_ = l.NetworkFlow()
+			useFlow(l.NetworkFlow())
 		}
 	})
 	guardAcc("TransportLayer", &recs, func() {
 		if l := p.TransportLayer(); !isNil(l) {
-			_ = l.TransportFlow()
+			useFlow(l.TransportFlow())
 		}
 	})
 	guardAcc("ApplicationLayer", &recs, func() {
@@ -190,6 +190,14 @@ func decEvent(tr *vh.Trace, sc int, name string, data []byte, first gopacket.Lay
 		pp.Dispose()
 	}
 	tr.Emit(ev)
+}
+
+// useFlow: everything a reader does with a flow (the endpoints of a layer that failed to decode may be empty)
+func useFlow(f gopacket.Flow) {
+	a, b := f.Endpoints()
+	_, _, _ = a.String(), b.String(), f.String()
+	_, _, _ = f.FastHash(), a.FastHash(), b.LessThan(a)
+	_ = f.Reverse().String()
 }
 
 func sigOf(recs []panicRec, dflt string) string {
